@@ -84,3 +84,35 @@ pub fn all() {
     assert_send_sync::<TlsRecordType>();
     assert_send_sync::<Result<&'static TlsCipherSuite, CipherSuiteNotFound>>();
 }
+
+/// Entries of the static cipher registry are `&'static`: each of these functions only type-checks if the API hands out a reference that
+/// does not borrow from the query string, the hello or the input bytes (so it can be kept, sent to another thread, stored in a static).
+pub fn registry_references_are_static() {
+    use core::convert::TryFrom;
+    fn by_name<'n>(n: &'n str) -> Option<&'static TlsCipherSuite> {
+        TlsCipherSuite::from_name(n)
+    }
+    fn by_id(id: u16) -> Option<&'static TlsCipherSuite> {
+        TlsCipherSuite::from_id(id)
+    }
+    fn by_suite_id(id: TlsCipherSuiteID) -> Option<&'static TlsCipherSuite> {
+        id.get_ciphersuite()
+    }
+    fn by_try_from<'n>(n: &'n str) -> Result<&'static TlsCipherSuite, CipherSuiteNotFound> {
+        <&'static TlsCipherSuite>::try_from(n)
+    }
+    fn trait_accessor<'a, 'h>(h: &'h TlsClientHelloContents<'a>) -> Vec<Option<&'static TlsCipherSuite>> {
+        ClientHello::cipher_suites(h)
+    }
+    fn dtls_trait_accessor<'a, 'h>(h: &'h DTLSClientHello<'a>) -> Vec<Option<&'static TlsCipherSuite>> {
+        ClientHello::cipher_suites(h)
+    }
+    fn inherent_accessor<'a, 'h>(h: &'h TlsClientHelloContents<'a>) -> Vec<Option<&'static TlsCipherSuite>> {
+        h.get_ciphers()
+    }
+    fn server_accessor<'a, 'h>(h: &'h TlsServerHelloContents<'a>) -> Option<&'static TlsCipherSuite> {
+        h.get_cipher()
+    }
+    let _ = (by_name as fn(&str) -> _, by_id as fn(u16) -> _, by_suite_id as fn(TlsCipherSuiteID) -> _, by_try_from as fn(&str) -> _);
+    let _ = (trait_accessor as fn(&TlsClientHelloContents) -> _, dtls_trait_accessor as fn(&DTLSClientHello) -> _, inherent_accessor as fn(&TlsClientHelloContents) -> _, server_accessor as fn(&TlsServerHelloContents) -> _);
+}
